@@ -77,6 +77,9 @@ func init() {
 		"(*sync.Pool).Get": func(fr *frame, a []value) value {
 			used("sync.Pool (model: LIFO reuse of Put objects, else New)")
 			p := a[0].(*value)
+			if sched != nil && sched.cur != nil {
+				acquire(p)
+			}
 			if st := poolStore[p]; PoolReuse && len(st) > 0 {
 				v := st[len(st)-1]
 				poolStore[p] = st[:len(st)-1]
@@ -97,6 +100,9 @@ func init() {
 			if x, ok := a[1].(iface); ok && x.t == nil {
 				return nil
 			}
+			if sched != nil && sched.cur != nil {
+				release(p)
+			}
 			poolStore[p] = append(poolStore[p], a[1])
 			return nil
 		},
@@ -105,14 +111,14 @@ func init() {
 			p := a[0].(*value)
 			sched.yield(func() bool { return mutexHeld[p] == 0 })
 			mutexHeld[p] = 1
-			acquire(p)
+			acquireLock(p)
 			return nil
 		},
 		"(*sync.Mutex).TryLock": func(fr *frame, a []value) value {
 			p := a[0].(*value)
 			if mutexHeld[p] == 0 {
 				mutexHeld[p] = 1
-				acquire(p)
+				acquireLock(p)
 				return true
 			}
 			return false
@@ -122,7 +128,7 @@ func init() {
 			if mutexHeld[p] == 0 {
 				panic(targetPanic{iface{t: types.Typ[types.String], v: "sync: unlock of unlocked mutex"}})
 			}
-			release(p)
+			releaseLock(p)
 			mutexHeld[p] = 0
 			sched.yield(nil)
 			return nil
@@ -132,7 +138,7 @@ func init() {
 			p := a[0].(*value)
 			sched.yield(func() bool { return mutexHeld[p] == 0 && rwReaders[p] == 0 })
 			mutexHeld[p] = 1
-			acquire(p)
+			acquireLock(p)
 			return nil
 		},
 		"(*sync.RWMutex).Unlock": func(fr *frame, a []value) value {
@@ -140,7 +146,7 @@ func init() {
 			if mutexHeld[p] == 0 {
 				panic(targetPanic{iface{t: types.Typ[types.String], v: "sync: Unlock of unlocked RWMutex"}})
 			}
-			release(p)
+			releaseLock(p)
 			mutexHeld[p] = 0
 			sched.yield(nil)
 			return nil
@@ -149,7 +155,7 @@ func init() {
 			p := a[0].(*value)
 			sched.yield(func() bool { return mutexHeld[p] == 0 })
 			rwReaders[p]++
-			acquire(p)
+			acquireRLock(p)
 			return nil
 		},
 		"(*sync.RWMutex).RUnlock": func(fr *frame, a []value) value {
@@ -157,7 +163,7 @@ func init() {
 			if rwReaders[p] == 0 {
 				panic(targetPanic{iface{t: types.Typ[types.String], v: "sync: RUnlock of unlocked RWMutex"}})
 			}
-			release(p)
+			releaseLock(rlockKey(p))
 			rwReaders[p]--
 			sched.yield(nil)
 			return nil
